@@ -9,6 +9,8 @@ import (
 	"encoding/binary"
 	"fmt"
 	"os"
+	"runtime"
+	"sync"
 	"time"
 
 	"go.nanomsg.org/mangos/v3"
@@ -233,6 +235,7 @@ func runC01(c *Ctx) {
 	runFanoutPartialFailure(c)
 	runFanoutOwnership(c)
 	runRecvKeepsBytes(c)
+	runSubContextsOwnTheirCopies(c)
 	wirePool(c)
 
 	sizes := []int{0, 1, 5, 63, 64, 65, 127, 128, 129, 255, 256, 257, 511, 512, 513, 1023, 1024, 1025, 4095, 4096, 4097, 8191, 8192, 8193, 65535, 65536, 65537}
@@ -283,6 +286,37 @@ func runC01(c *Ctx) {
 			}
 		}
 	}
+	// no receive limit (MaxRecvSize 0): sizes beyond the default limit, not multiples of anything, back to back with small ones
+	for _, tr := range e2eTransports {
+		if tr.name == "inproc" || (!c.Thorough() && (tr.name == "wss" || tr.name == "ws")) {
+			continue
+		}
+		for _, p := range []e2ePattern{e2ePatterns[0], e2ePatterns[6]} {
+			link, err := e2eConnect(tr, p, 0)
+			if err != nil {
+				c.Violate(fmt.Sprintf("%s/%s without receive limit: cannot connect: %v", tr.name, p.name, err), nil)
+				continue
+			}
+			big := []int{1<<20 + 1, 17, 2<<20 + 4097, 0}
+			if c.Thorough() {
+				big = append(big, 1<<20-1, 1<<20, 3<<20-1, 1<<20+512<<10+12345, 64)
+			}
+			for _, sz := range big {
+				body := patterned(c.R.U64(), sz)
+				got, back, err := link.transfer(p, body)
+				class := fmt.Sprintf("e2e-unlimited %s %s class=%d", tr.name, p.name, lenClass(sz))
+				c.Class(class, true)
+				ok := err == nil && bytes.Equal(got, body) && (!p.reply || bytes.Equal(back, body))
+				c.T.Line(class, fmt.Sprintf("wire.fit 0 %d", sz+p.wireHdr), map[bool]string{true: "delivered", false: "lost"}[ok])
+				if !ok {
+					c.Violate(fmt.Sprintf("%s/%s without receive limit: a %d-byte message did not arrive byte-identical (err=%v, got %d bytes, echoed %d bytes)", tr.name, p.name, sz, err, len(got), len(back)),
+						map[string]interface{}{"transport": tr.name, "pattern": p.name, "size": sz, "max_recv_size": 0})
+					break
+				}
+			}
+			link.close()
+		}
+	}
 	// receive limit: total == limit is delivered, limit+1 is not (and the link recovers)
 	limits := []int{100, 1024}
 	if c.Thorough() {
@@ -318,5 +352,92 @@ func runC01(c *Ctx) {
 				link.close()
 			}
 		}
+	}
+}
+
+// Two contexts of one SUB socket receive the same publication at the same time, each in a goroutine of its own; one of
+// them overwrites what it received at once, the other compares every byte with what was published.  Bodies are larger
+// than any pool class and smaller ones alternate, so both the shared-buffer and the pooled path are taken.
+func runSubContextsOwnTheirCopies(c *Ctx) {
+	rounds := 150
+	if c.Thorough() {
+		rounds = 1500
+	}
+	devSeq++
+	addr := fmt.Sprintf("inproc://verif-c01-subctx-%d", devSeq)
+	p, err := pub.NewSocket()
+	if err != nil {
+		return
+	}
+	defer p.Close()
+	s, err := sub.NewSocket()
+	if err != nil {
+		return
+	}
+	defer s.Close()
+	if p.Listen(addr) != nil || s.Dial(addr) != nil {
+		c.Violate("SUB contexts scenario: cannot connect over inproc", nil)
+		return
+	}
+	ctxs := []mangos.Context{}
+	for i := 0; i < 2; i++ {
+		cx, err := s.OpenContext()
+		if err != nil {
+			return
+		}
+		_ = cx.SetOption(mangos.OptionSubscribe, []byte{})
+		_ = cx.SetOption(mangos.OptionRecvDeadline, 2*time.Second)
+		ctxs = append(ctxs, cx)
+	}
+	time.Sleep(30 * time.Millisecond)
+	bad := ""
+	for r := 0; r < rounds && bad == ""; r++ {
+		size := []int{256 << 10, 300, 70000, 5000}[r%4]
+		body := patterned(uint64(90000+r), size)
+		if err := p.Send(body); err != nil {
+			break
+		}
+		var wg sync.WaitGroup
+		var mu sync.Mutex
+		for i, cx := range ctxs {
+			wg.Add(1)
+			go func(i int, cx mangos.Context) {
+				defer wg.Done()
+				m, err := cx.RecvMsg()
+				if err != nil {
+					mu.Lock()
+					if bad == "" {
+						bad = fmt.Sprintf("round %d: context %d received nothing (%v)", r, i, err)
+					}
+					mu.Unlock()
+					return
+				}
+				if i == 0 {
+					for j := range m.Body {
+						m.Body[j] = 0xEE
+					}
+				} else {
+					runtime.Gosched()
+					if !bytes.Equal(m.Body, body) {
+						k := 0
+						for k < len(m.Body) && k < len(body) && m.Body[k] == body[k] {
+							k++
+						}
+						mu.Lock()
+						if bad == "" {
+							bad = fmt.Sprintf("round %d (%d bytes): the message context 1 received differs from what was published at byte %d (length %d) while context 0 was overwriting its own copy", r, size, k, len(m.Body))
+						}
+						mu.Unlock()
+					}
+				}
+				m.Free()
+			}(i, cx)
+		}
+		wg.Wait()
+	}
+	c.Class(fmt.Sprintf("SUB contexts own their copies: clean=%v", bad == ""), true)
+	if bad != "" {
+		c.Violate("PUB/SUB over inproc, two contexts receiving the same publication concurrently: "+bad,
+			map[string]interface{}{"scenario": "pub -> sub (inproc), 2 contexts subscribed to everything, each Recv in its own goroutine; context 0 fills its message with 0xEE, context 1 compares with the published bytes"})
 	}
 }
